@@ -38,6 +38,12 @@ fn main() {
             let lines = t.finish();
             println!("{}", serde_json::json!({"runs": runs, "events": lines}));
         }
+        "damage" => {
+            let mut t = Trace::create(job["out"].as_str().unwrap());
+            let runs = vharness::decodeh::run_damage(&job, &mut t);
+            let lines = t.finish();
+            println!("{}", serde_json::json!({"runs": runs, "events": lines}));
+        }
         "crash" => {
             let mut t = Trace::create(job["out"].as_str().unwrap());
             let runs = vharness::crash::run(&job, &mut t);
